@@ -160,7 +160,7 @@ static int do_declare(ezc3d::c3d& c, bool point, int variant) {   // 0 fresh, 1 
   return 0;
 }
 
-enum { NOPS = 56 };
+enum { NOPS = 58 };
 static int apply(ezc3d::c3d*& c, unsigned op) {
   Dev d;
   switch (op) {
@@ -219,6 +219,8 @@ static int apply(ezc3d::c3d*& c, unsigned op) {
     case 53: return do_channel_col(*c, 0, 0, 4, false);
     case 54: return do_point_col(*c, 0, 5, false);
     case 55: return do_channel_col(*c, 0, 0, 5, false);
+    case 56: return do_declare(*c, false, 1);
+    case 57: return do_declare(*c, true, 2);
     case 43: {   // save and reload
       __vp_obs_u64("call.kind", 8);
       try { c->write("hist.c3d"); ezc3d::c3d* n = new ezc3d::c3d("hist.c3d"); delete c; c = n; } catch (...) { return classify(); }
@@ -310,5 +312,31 @@ extern "C" int h_rates() {
     __vp_obs_f32("POINT:RATE", c.parameters().group("POINT").parameter("RATE").valuesAsFloat()[0]);
   }
   __vp_reached("rates.end");
+  return 0;
+}
+
+// C10 kernel: an indexed store FAR beyond the end (the documented "extend" form) around the capacities of the format's
+// 16-bit counts.  Whatever the library answers, a refusal must leave the object as it was.  The dump is the header, the
+// whole parameter tree, the frame count and the frames that existed before the call (32 768 empty gap frames are not walked).
+static void dump_light(const ezc3d::c3d& c, const char* tag, size_t nOld) {
+  __vp_tag(tag);
+  dump_header(c, false);
+  dump_params(c);
+  __vp_obs_u64("dat.nbFrames", c.data().nbFrames());
+  for (size_t f = 0; f < nOld && f < c.data().nbFrames(); ++f) dump_frame(c.data().frame(f), true);
+}
+extern "C" int h_far() {
+  ezc3d::c3d* c = start_state(__vp_cfg("start"));
+  const size_t idx = (size_t)__vp_cfg("idx"), nOld = c->data().nbFrames();
+  Dev d; Frame f = make_frame(*c, d);
+  dump_light(*c, "before", nOld);
+  int out = 0;
+  __vp_tag("call");
+  try { c->frame(f, idx); } catch (...) { out = classify(); }
+  __vp_obs_u64("call.outcome", out);
+  dump_light(*c, "after", nOld);
+  if (out == 0) { __vp_tag("stored"); dump_frame(c->data().frame(idx), true); __vp_tag("given"); dump_frame(f, true); }
+  delete c;
+  __vp_reached("far.end");
   return 0;
 }
